@@ -57,6 +57,9 @@ def quiescence_clauses(run: Run) -> list[tuple[str, str]]:
     if any(s.status.name == "TERMINAL" for s in top):
         if not final:
             pass  # already reported as stuck (or it is explicitly waiting on another branch)
+        elif ws == "CANCELED" and any(s.status.name == "CANCELED" and s.deferred_choice_group for s in top):
+            pass  # the loser of a deferred choice is CANCELED by design and that status finalises the workflow as CANCELED (the repo's own
+            # deferred-choice test expects it); a branch failing afterwards cannot change a final status any more
         elif ws != "TERMINAL" and not wf.is_canceled:
             # no cancel was requested in this campaign, so nothing but the failure explains the end of the workflow
             out.append(("terminal-stage-not-failed", f"a top-level stage is TERMINAL but workflow is {ws}"))
